@@ -70,6 +70,19 @@ def model_and_histories(ck, want=10):
     return chosen[:want] if want else chosen
 
 
+def memo_fresh(fn):
+    """Reference results are functions of the argument VALUE: compute each distinct content once (keyed on the bytes)."""
+    import hashlib
+    cache = {}
+
+    def g(a):
+        k = hashlib.sha1(np.ascontiguousarray(a).tobytes()).hexdigest()
+        if k not in cache:
+            cache[k] = fn(a)
+        return cache[k]
+    return g
+
+
 def _flat(r):
     if isinstance(r, (tuple, list)):
         return [np.asarray(x) for x in r if x is not None]
